@@ -596,4 +596,175 @@ theorem getMass_signed (T : Tables) (db : List Entry) (c : Nat) (ds : Str) (mono
   · simp [getMass]; cases parseFloat (43 :: ds) <;> rfl
   · simp [getMass]; cases parseFloat (45 :: ds) <;> rfl
 
+/-! ## `int()` and `float()` agree; a numeric text is a mass shift -/
+
+theorem digitRun_all_head {r : Str} {ds : List Nat} (h : digitRun r false [] = (ds, [])) (hne : ds ≠ []) :
+    ∃ c r', r = c :: r' ∧ isDigit c = true := by
+  cases r with
+  | nil => simp [digitRun] at h; exact absurd h hne
+  | cons c r' =>
+    refine ⟨c, r', rfl, ?_⟩
+    by_cases hc : isDigit c = true
+    · exact hc
+    · simp [digitRun, hc] at h
+
+theorem parseFloat_of_parseInt {s : Str} {i : Int} (h : parseInt s = some i) : parseFloat s = .val (i : Rat) := by
+  unfold parseInt at h
+  simp only at h
+  split at h
+  · cases h
+  · rename_i hcond
+    simp only [Bool.or_eq_true, Bool.not_eq_true', not_or, Bool.not_eq_false,
+      List.isEmpty_iff] at hcond
+    obtain ⟨h1, h2⟩ := hcond
+    have h1' : (digitRun (signOf (strip s)).2 false []).1 ≠ [] := by
+      intro e; rw [e] at h1; simp at h1
+    have hd : digitRun (signOf (strip s)).2 false [] = ((digitRun (signOf (strip s)).2 false []).1, []) :=
+      Prod.ext rfl h2
+    obtain ⟨c, r', hr, hc⟩ := digitRun_all_head hd h1'
+    have hsp : (lower (signOf (strip s)).2 == str% "inf" || lower (signOf (strip s)).2 == str% "infinity"
+        || lower (signOf (strip s)).2 == str% "nan") = false := by
+      rw [hr]
+      have : toLowerC c = c := by
+        simp [isDigit] at hc
+        simp [toLowerC, isUpper]; omega
+      simp [lower, this]
+      simp [isDigit] at hc
+      omega
+    rw [parseFloat_eq]
+    simp only [hsp, Bool.false_eq_true, if_false, h2, dotSplit]
+    simp only [Option.some.injEq] at h
+    have h3 : (digitRun (signOf (strip s)).2 false []).1.isEmpty = false := by
+      cases hh : (digitRun (signOf (strip s)).2 false []).1 with
+      | nil => exact absurd hh h1'
+      | cons a b => rfl
+    simp [h3, expPart, ← h]
+
+
+/-- `convert_type` in terms of `float()` alone (the value; the int/float flag is immaterial for a mass) -/
+theorem convertType_of_parseFloat (s : Str) :
+    (∀ r, parseFloat s = .val r → ∃ n, convertType s = .num n ∧ n.val = r) ∧
+    (parseFloat s = .special → convertType s = .special) ∧
+    (parseFloat s = .bad → convertType s = .str) := by
+  cases hi : parseInt s with
+  | some i =>
+    have := parseFloat_of_parseInt hi
+    refine ⟨?_, ?_, ?_⟩
+    · intro r hr; rw [this] at hr; cases hr
+      exact ⟨Num.ofInt i, by simp [convertType, hi], rfl⟩
+    · intro hr; rw [this] at hr; cases hr
+    · intro hr; rw [this] at hr; cases hr
+  | none =>
+    refine ⟨?_, ?_, ?_⟩
+    · intro r hr; exact ⟨⟨r, true⟩, by simp [convertType, hi, hr], rfl⟩
+    · intro hr; simp [convertType, hi, hr]
+    · intro hr; simp [convertType, hi, hr]
+
+theorem massBody_number (T : Tables) (s : Str) (mono : Bool) :
+    massBody T s mono =
+      (match parseFloat s with
+       | .val r => .ok (some (some r))
+       | .special => .ok (some none)
+       | .bad => massStrBody T s mono) := by
+  obtain ⟨h1, h2, h3⟩ := convertType_of_parseFloat s
+  cases hf : parseFloat s with
+  | val r =>
+    obtain ⟨n, hn, hv⟩ := h1 r hf
+    simp [massBody, hn, hv]
+  | special => simp [massBody, h2 hf]
+  | bad => simp [massBody, h3 hf]
+
+/-! ## compositions of the prefixed families -/
+
+theorem comp_family_prefix (T : Tables) (p' t : Str) (h35 : 35 ∉ t) :
+    (lower p' ∈ pGno → parseModComp T (p' ++ t) = dbComp T.gno [] t) ∧
+    (lower p' ∈ pXlmod → parseModComp T (p' ++ t) = dbComp T.xlmod [] t) ∧
+    (lower p' ∈ pResid → parseModComp T (p' ++ t) = dbComp T.resid [] t) ∧
+    (lower p' ∈ pPsi → parseModComp T (p' ++ t) = dbComp T.psimod [] t) ∧
+    (lower p' ∈ pUnimod → isDbStr pPsi T.psimod (p' ++ t) = false →
+      parseModComp T (p' ++ t) = dbComp T.unimod [] t) := by
+  have hS : ∀ t : Str, stripPrefix [] t = t := by intro t; simp [stripPrefix, hasPrefix]
+  refine ⟨?_, ?_, ?_, ?_, ?_⟩
+  · intro hp
+    simp only [pGno, List.mem_cons, List.mem_nil_iff, or_false] at hp
+    rcases hp with hp | hp
+    all_goals
+      obtain ⟨h1, h2, h3, _, _, hl⟩ := prefixFacts hp (by decide) h35
+      rw [parseModComp_str T h1 h2]
+      simp [compStrBody, dbComp, hasPrefix, stripPrefix, pGno, hl, h3, startsWith, List.isPrefixOf]
+  · intro hp
+    simp only [pXlmod, List.mem_cons, List.mem_nil_iff, or_false] at hp
+    rcases hp with hp | hp
+    all_goals
+      obtain ⟨h1, h2, h3, _, _, hl⟩ := prefixFacts hp (by decide) h35
+      rw [parseModComp_str T h1 h2]
+      simp [compStrBody, dbComp, hasPrefix, stripPrefix, pGno, pXlmod, hl, h3, startsWith, List.isPrefixOf]
+  · intro hp
+    simp only [pResid, List.mem_cons, List.mem_nil_iff, or_false] at hp
+    rcases hp with hp | hp
+    all_goals
+      obtain ⟨h1, h2, h3, _, _, hl⟩ := prefixFacts hp (by decide) h35
+      rw [parseModComp_str T h1 h2]
+      simp [compStrBody, dbComp, hasPrefix, stripPrefix, pGno, pXlmod, pResid, hl, h3, startsWith,
+        List.isPrefixOf]
+  · intro hp
+    simp only [pPsi, List.mem_cons, List.mem_nil_iff, or_false] at hp
+    rcases hp with hp | hp | hp
+    all_goals
+      obtain ⟨h1, h2, h3, _, _, hl⟩ := prefixFacts hp (by decide) h35
+      rw [parseModComp_str T h1 h2]
+      simp [compStrBody, dbComp, isDbStr, hasPrefix, stripPrefix, pGno, pXlmod, pResid, pPsi, hl, h3,
+        startsWith, List.isPrefixOf]
+  · intro hp hP
+    simp only [pUnimod, List.mem_cons, List.mem_nil_iff, or_false] at hp
+    rcases hp with hp | hp
+    all_goals
+      obtain ⟨h1, h2, h3, _, _, hl⟩ := prefixFacts hp (by decide) h35
+      rw [parseModComp_str T h1 h2]
+      have hU : isDbStr pUnimod T.unimod (p' ++ t) = true := by
+        simp [isDbStr, hasPrefix, pUnimod, hl, startsWith, List.isPrefixOf]
+      have hSt : stripPrefix pUnimod (p' ++ t) = t := by
+        simp [hasPrefix, stripPrefix, pUnimod, hl, h3, startsWith, List.isPrefixOf]
+      simp [compStrBody, dbComp, hS, hasPrefix, hP, hU, hSt, pGno, pXlmod, pResid, hl, startsWith,
+        List.isPrefixOf]
+
+theorem getComp_signed (db : List Entry) (c : Nat) (ds : Str) (hc : c = 43 ∨ c = 45) :
+    getComp db (c :: ds) =
+      (match parseFloat (c :: ds) with
+       | .bad => .error .invalidDeltaMass
+       | _ => .error .deltaMassComp) := by
+  rcases hc with rfl | rfl
+  · simp [getComp]; cases parseFloat (43 :: ds) <;> rfl
+  · simp [getComp]; cases parseFloat (45 :: ds) <;> rfl
+
+theorem dbComp_signed (db : List Entry) (c : Nat) (ds : Str) (hc : c = 43 ∨ c = 45) :
+    dbComp db [] (c :: ds) =
+      (match parseFloat (c :: ds) with
+       | .bad => .error .invalidDeltaMass
+       | _ => .error .deltaMassComp) := by
+  have hS : stripPrefix [] (c :: ds) = c :: ds := by simp [stripPrefix, hasPrefix]
+  rw [dbComp, hS, getComp_signed db c ds hc]
+  cases parseFloat (c :: ds) <;> rfl
+
+
+theorem comp_formula_prefix (T : Tables) (p' t : Str) (hp : lower p' = str% "formula:") (h35 : 35 ∉ t)
+    (hP : isDbStr pPsi T.psimod (p' ++ t) = false) (hU : isDbStr pUnimod T.unimod (p' ++ t) = false) :
+    parseModComp T (p' ++ t) = (parseChem (spanP (· != 58) t).1 []).map some := by
+  obtain ⟨h1, h2, _, _, h5, hl⟩ := prefixFacts hp (by decide) h35
+  rw [parseModComp_str T h1 h2]
+  simp only [compStrBody, hasPrefix, hP, hU, pGno, pXlmod, pResid, hl, h5]
+  simp only [startsWith, List.any]
+  simp
+
+theorem comp_glycan (T : Tables) (s : Str) (hp : startsWith (lower s) (str% "glycan:") = true)
+    (h35 : 35 ∉ s) : parseModComp T s = (glycanCompProforma T s).map some := by
+  have hc : convertType s = .str := convertType_colon (colon_of_startsWith_lower hp (by decide))
+  rw [parseModComp_str T h35 hc]
+  simp [compStrBody, hp]
+
+theorem spanP_noColon {t : Str} (h : 58 ∉ t) : (spanP (· != 58) t).1 = t ∧ t.filter (· != 58) = t := by
+  refine ⟨by rw [spanP_all _ t (ne_of_not_mem h)], ?_⟩
+  apply List.filter_eq_self.2
+  exact ne_of_not_mem h
+
 end ModDbGeneric
